@@ -81,11 +81,20 @@ def write_obligations(names) -> list[str]:
     search_reach = search_ready and _has('Ptx/Props/Search.lean', 'theorem search_run_deriv ', 'theorem inv_reachable ')
     search_fo = (search_reach and _has('Ptx/Props/Search.lean', 'theorem search_completed_saturated_fo ', 'theorem invq_reachable ')
                  and _has('Ptx/Search/Side.lean', 'def quantTicksB'))
+    search_sound = search_reach and _has('Ptx/Props/SearchSound.lean', 'theorem search_closed_valid ')
+    known_unsound = set()
+    try:
+        ktxt = (common.LEAN / 'Ptx' / 'Gen' / 'Known.lean').read_text()
+        blk = ktxt[ktxt.index('def unsoundRules'):]
+        blk = blk[:blk.index('\ndef ', 5)] if '\ndef ' in blk[5:] else blk
+        known_unsound = set(re.findall(r'\| "([A-Za-z0-9]+)" =>', blk))
+    except (OSError, ValueError):
+        search_sound = False
     for n in names:
         S, W = f'Gen.{n}.sem', f'Gen.W_{n}'
         lines = [f'/- GENERATED by harness/props/c02.py for logic {n} from the data regenerated from /repo. Do not edit.',
                  '   Side conditions of the Hintikka lemma with the DOCUMENTED tables (decide +kernel) and the instantiated theorems. -/',
-                 f'import Ptx.Gen.Obl_{n}', 'import Ptx.Gen.ObMeasure', 'import Ptx.Props.C02', 'import Ptx.Props.C09', *(['import Ptx.Props.Search'] if search_ready else []),
+                 f'import Ptx.Gen.Obl_{n}', 'import Ptx.Gen.ObMeasure', 'import Ptx.Props.C02', 'import Ptx.Props.C09', *(['import Ptx.Props.Search'] if search_ready else []), *(['import Ptx.Props.SearchSound'] if search_sound else []),
                  'namespace Ptx.Gen.ObHintikka', 'open Ptx', '',
                  f'theorem {n}_measure_sem (p : RuleKey → Bool) : {S}.measureOKOnB p {W} = Gen.{n}.measureOKOnB p {W} := by',
                  '  unfold LogicData.sem; split <;> rfl',
@@ -205,6 +214,14 @@ def write_obligations(names) -> list[str]:
                     f'  {n}_c02_countermodel_fo arg s.tab (Props.Search.search_run_deriv {S} arg s hr) b (List.mem_of_getElem? hb)',
                     f'    ({n}_completed_is_saturated_fo s (Props.Search.inv_reachable {S} arg s hr) (Props.Search.invq_reachable {S} arg s hr)',
                     f'      bi b hb hopen htq hnone hq hlim hclim hcl hident) hg']
+        if search_sound and n not in known_unsound:
+            lines += [
+                f'/-- the VALID verdict of the search model for {n}: in a reachable state with every branch closed no interpretation is a countermodel -/',
+                f'theorem {n}_search_closed_valid (arg : Argument) (s : Search.SState) (hr : Search.Reach {S} arg s) (hclosed : s.tab.allClosed = true)',
+                f'    (M : Struct) (hM : M.Interp {S}) (e : Env M.D) (w0 : M.W) : ¬ Countermodel {S} M e w0 arg :=',
+                f'  Props.Search.search_closed_valid {S} Obl.{n}.sound_core (by decide +kernel) arg s hr hclosed M hM e w0']
+        elif search_sound:
+            lines.append(f'-- {n}: has rule rows listed as unsound known findings; search_closed_valid is not instantiated (C01 covers derivations that avoid them)')
         lines += [f'/-- C03 termination for {n} (tick-respecting derivations, propositional fragment) -/',
                   f'theorem {n}_c03_terminates (arg : Argument) (hp : arg.isProp = true) (t : Tableau) (steps : List Step)',
                   f'    (h : replayFresh Gen.{n} (trunk Gen.{n} arg) steps = some t) : steps.length ≤ termBound Gen.{n} {W} arg ∧ t.noQuit :=',
@@ -226,7 +243,7 @@ def run(ctx: Ctx):
     data = logicobl.regenerate()
     names0 = sorted(n for n, d in data.items() if 'fatal' not in d)
     covered = write_obligations(names0)
-    res = lean_phase(ctx, ['Ptx.Props.C02', 'Ptx.Props.Search', 'Ptx.Gen.ObMeasure'] + write_obligations.modules, extra_targets=['Ptx.Gen.ObHintikka'])
+    res = lean_phase(ctx, ['Ptx.Props.C02', 'Ptx.Props.Search', 'Ptx.Props.SearchSound', 'Ptx.Gen.ObMeasure'] + write_obligations.modules, extra_targets=['Ptx.Gen.ObHintikka'])
     for lg, why in sorted(getattr(write_obligations, 'search_side_bad', {}).items()):
         ctx.fail(f'C02:search-side:{lg}:{why.split()[0]}', f'{lg}: the side conditions of the search-layer theorem completed_is_saturated no longer hold '
                  f'for the regenerated data ({why}); the theorem is not instantiated for this logic', dict(logic=lg, failing=why), found_input=False)
